@@ -1,7 +1,7 @@
 (* PV.C11.Examples — non-vacuity: concrete NON-TRIVIAL inputs meeting the hypotheses / guards of
    every theorem in Properties.v (a 6-variable, 3-block collection with IIV and IOV levels). *)
 From Coq Require Import List Bool PArith Arith Lia QArith Reals Lra.
-From PV Require Import Base.PyData Base.Expr C11.Model C11.NumModel C11.NumProofs C11.JdModel C11.Ldl C11.Refuted.
+From PV Require Import Base.PyData Base.Expr C11.Model C11.NumModel C11.NumProofs C11.JdModel C11.Ldl C11.VarParams C11.Refuted.
 Import ListNotations.
 Local Open Scope nat_scope.
 
@@ -167,6 +167,16 @@ Example cjd_default_example :
   covariance_matrix sym None [Joint [va; vb] L_IOV [None; None] V; Joint [vc; vd] L_IOV [None; None] V] =
   [[Some 31; Some 32; None; None]; [Some 32; Some 33; None; None];
    [None; None; Some 31; Some 32]; [None; None; Some 32; Some 33]]%positive.
+Proof. repeat split; vm_compute; reflexivity. Qed.
+
+(* variance_parameters: two occasions sharing the symbols 31, 33 after an IIV eta -> each name once, in order of
+   first appearance; a literal 0 on a diagonal has no name (ValueError) *)
+Example variance_parameters_example :
+  let V := [[Some 31%positive; Some 32%positive]; [Some 32%positive; Some 33%positive]] in
+  variance_parameters [Normal ve L_IIV None (Some 23%positive); Joint [va; vb] L_IOV [None; None] V;
+                       Joint [vc; vd] L_IOV [None; None] V] = Ok [23; 31; 33]%positive /\
+  wf sym [Normal ve L_IIV None (Some 23%positive); Joint [va; vb] L_IOV [None; None] V; Joint [vc; vd] L_IOV [None; None] V] = true /\
+  variance_parameters [Normal ve L_IIV None None] = Err ValueError.
 Proof. repeat split; vm_compute; reflexivity. Qed.
 
 (* ---- numeric side: the hypotheses of the real-number theorems are satisfiable ------------------- *)
